@@ -169,6 +169,29 @@ def check_messages(st):
             d = wire.parse_kexinit(bytes([wire.MSG_KEXINIT]) + payload)
             if d['kex'] != ','.join(kex or ['']).encode() or d['enc_s2c'] != ','.join(mac or ['']).encode():
                 st.violation('kexinit:independent-decoder-disagrees', {'kex': kex, 'key': key})
+    # every one of the ten name-lists carries its own distinct value (any swap or shift between slots is visible); lists of 0..2 names
+    slots = ['kex', 'key', 'enc_c2s', 'enc_s2c', 'mac_c2s', 'mac_s2c', 'comp_c2s', 'comp_s2c', 'lang_c2s', 'lang_s2c']
+    for variant in range(len(slots) + 2):
+        vals = {}
+        for i, sl in enumerate(slots):
+            n = 1 if variant >= len(slots) else (0 if i == variant else 2)
+            if variant == len(slots) + 1:
+                n = 2 if i % 2 else 1
+            vals[sl] = ['%s-%d@slot.example' % (sl.replace('_', '-'), j) for j in range(n)]
+        payload = wire.serialize(wire.kexinit_tree(vals['kex'], vals['key'], vals['enc_c2s'], vals['enc_s2c'], vals['mac_c2s'], vals['mac_s2c'],
+                                                   vals['comp_c2s'], vals['comp_s2c'], vals['lang_c2s'], vals['lang_s2c'], 1, 0x01020304, b'\x09' * 16))[1:]
+        k = SSH2_Kex.parse(OutputBuffer(), payload)
+        got = {'kex': k.kex_algorithms, 'key': k.key_algorithms, 'enc_c2s': k.client.encryption, 'enc_s2c': k.server.encryption, 'mac_c2s': k.client.mac,
+               'mac_s2c': k.server.mac, 'comp_c2s': k.client.compression, 'comp_s2c': k.server.compression, 'lang_c2s': k.client.languages, 'lang_s2c': k.server.languages}
+        st.execution(None, outcome=('kexinit-slots',), root=('kexinit-slots', variant), nontrivial=('kexinit-slots', variant))
+        for sl in slots:
+            want = vals[sl] if vals[sl] else ['']
+            if got[sl] != want:
+                st.violation('kexinit:decoded-field-differs:%s' % sl, {'slot': sl, 'decoded': got[sl], 'sent': want})
+        if k.cookie != b'\x09' * 16 or k.follows is not True or k.unused != 0x01020304:
+            st.violation('kexinit:decoded-field-differs:cookie/follows/reserved', {'follows': k.follows, 'unused': k.unused})
+        if k.payload != payload:
+            st.violation('kexinit:encode(decode(b))!=b', {'variant': variant})
     for sbits, hbits in itertools.product((0, 1, 767, 768, 1024), (8, 1023, 1024, 2048)):
         for e in (1, 3, 65537):
             for pf, cm, am in ((0, 0, 0), (2, 0x48, 0x0c), (0xffffffff, 0xffffffff, 0xffffffff)):
